@@ -57,7 +57,53 @@ type instance struct {
 	closedAt  time.Duration
 }
 
+// closeErrTransport makes the client transport's CloseSend/CloseReceive
+// report an error after they have done their work - what closing an already
+// broken websocket does (the gRPC streams never report one).
+type closeErrTransport struct {
+	ClientConnTransport
+	rc *simrt.RunCtx
+	pm int
+}
+
+func (t *closeErrTransport) Refresh() ClientConnTransport {
+	return &closeErrTransport{t.ClientConnTransport.Refresh(), t.rc, t.pm}
+}
+
+func (t *closeErrTransport) CloseSend() error {
+	err := t.ClientConnTransport.CloseSend()
+	if err == nil && simrt.Pm(t.pm, "transport.close-error") {
+		t.rc.Fault("transport-close-error")
+		return errors.New("simulated: close of an already broken socket")
+	}
+	return err
+}
+
+func (t *closeErrTransport) CloseReceive() error {
+	err := t.ClientConnTransport.CloseReceive()
+	if err == nil && simrt.Pm(t.pm, "transport.close-error") {
+		t.rc.Fault("transport-close-error")
+		return errors.New("simulated: close of an already broken socket")
+	}
+	return err
+}
+
+// wrapTransport installs closeErrTransport on a connection that Dial returned.
+func (st *stack) wrapTransport(raw net.Conn) {
+	cc, ok := raw.(*ClientConn)
+	if !ok || cc == nil || st.closeErrPm == 0 {
+		return
+	}
+	// (no lock: receiveMu is held for as long as a Recv blocks; under the
+	// simulator exactly one task runs between two scheduling points, so the
+	// plain store cannot interleave with a use of the field)
+	if _, done := cc.transport.(*closeErrTransport); !done {
+		cc.transport = &closeErrTransport{cc.transport, st.rc, st.closeErrPm}
+	}
+}
+
 type stack struct {
+	closeErrPm int // per-mille probability that a client transport close reports an error
 	rc     *simrt.RunCtx
 	relay  *relay
 	srv    *Server
@@ -486,6 +532,9 @@ func (st *stack) clientLoop() {
 		} else {
 			raw, err = st.cli.Dial(st.ctx, "")
 		}
+		if err == nil && raw != nil {
+			st.wrapTransport(raw)
+		}
 		sd.mu.Lock()
 		sd.attempts++
 		sd.mu.Unlock()
@@ -541,6 +590,9 @@ func (st *stack) clientLoop() {
 					st.rc.Probe("c11.early-dial-with-deadline")
 				}
 				r, e := st.cli.Dial(dctx, "")
+				if e == nil && r != nil {
+					st.wrapTransport(r)
+				}
 				ch <- dialRes{r, e}
 			}()
 		}
